@@ -108,16 +108,21 @@ func (o *OracleC09) BeforeCall(n *Node, st *Step) {
 	}
 	p := st.P
 	rm, ok := p.Body.(*RecMsg)
-	if !ok || rm.Lax || rm.PrepReqP == nil || p.H != d.BlockIndex || p.V != d.ViewNumber || int(p.Idx) >= len(d.Validators) {
+	if !ok || rm.Lax || rm.PrepReqP == nil || p.H != d.BlockIndex || p.V < d.ViewNumber || int(p.Idx) >= len(d.Validators) {
 		return
 	}
-	// the receiver: a voting validator with nothing at stake in this view
-	if d.MyIndex < 0 || n.flagWO || n.accepted || d.BlockSent() || d.RequestSentOrReceived() || d.CommitSent() || d.PreCommitSent() || d.ViewChanging() || d.IsPrimary() {
+	// the receiver: a voting validator with no vote of its own at this height ...
+	if d.MyIndex < 0 || n.flagWO || n.accepted || d.BlockSent() || d.CommitSent() || d.PreCommitSent() {
 		return
 	}
-	// the proposal inside: the authentic one of this view's primary, which is an honest node
+	// ... which, if it is already in the message's view, holds nothing of it and is not leaving it
+	// (if it is in a lower view, the change-view requests inside the message may bring it up)
+	if p.V == d.ViewNumber && (d.RequestSentOrReceived() || d.ViewChanging() || d.IsPrimary()) {
+		return
+	}
+	// the proposal inside: the authentic one of that view's primary, which is an honest node
 	e := rm.PrepReqP
-	prim := d.GetPrimaryIndex(d.ViewNumber)
+	prim := d.GetPrimaryIndex(p.V)
 	if e.T != dbft.PrepareRequestType || e.H != p.H || e.V != p.V || uint(e.Idx) != prim || !witnessOK(e, d.Validators) {
 		return
 	}
@@ -141,12 +146,18 @@ func (o *OracleC09) BeforeCall(n *Node, st *Step) {
 func (o *OracleC09) AfterCall(n *Node, st *Step) {
 	if e := o.recPre; e != nil {
 		o.recPre = nil
-		if d := n.d; d != nil && st.Panic == nil && st.PostBI == st.PreBI && st.PostV == st.PreV && !n.accepted && !d.BlockSent() {
+		if d := n.d; d != nil && st.Panic == nil && st.PostBI == st.PreBI && st.PostV == e.V && !n.accepted && !d.BlockSent() && !d.IsPrimary() && (st.PreV == e.V || (!d.ViewChanging() && !d.CommitSent() && !d.PreCommitSent())) {
+			// (when the view changes inside the call, an own earlier vote that a restarted validator had in its
+			// cache is replayed first and locks it: that state is legal, observation O7)
 			if !d.RequestSentOrReceived() {
-				o.s.Violate("C09", "proposal_in_recovery_message_not_taken", fmt.Sprintf("%s at height %d view %d held nothing of this view (no proposal, no vote of its own, not asking for a view change), was given a recovery message of this view carrying the primary's authentic proposal %s, and still holds no proposal afterwards: it cannot catch up from recovery messages", n, st.PreBI, st.PreV, e), n.id)
+				o.s.Violate("C09", "proposal_in_recovery_message_not_taken", fmt.Sprintf("%s at height %d (view %d before the call, view %d after it) had no vote of its own and nothing of view %d, was given a recovery message of view %d carrying the primary's authentic proposal %s, and holds no proposal afterwards: it cannot catch up from recovery messages", n, st.PreBI, st.PreV, st.PostV, e.V, e.V, e), n.id)
 				return
 			}
-			o.s.note("proposal_taken_from_recovery_message")
+			if st.PreV < e.V {
+				o.s.note("proposal_taken_from_recovery_message_after_view_change_inside_it")
+			} else {
+				o.s.note("proposal_taken_from_recovery_message")
+			}
 		}
 	}
 	if n.d == nil || st.Op != OpReceive || st.P == nil || st.P.T != dbft.RecoveryMessageType {
